@@ -25,22 +25,24 @@ Lemma add_free_tail occ root : root <> 0 -> forall fs s root' s',
   tables_ok P st s -> Forall (fun f => 1 <= f /\ @PF P f) fs -> sg_label (ls_g s) root = Some GAnd ->
   add_free rc occ fs root s = Some (root', s') ->
   root' = root /\ tables_ok P st s' /\ ext (ls_g s) (ls_g s') [root] /\
-  (exists tris, sg_out (ls_g s') root = tris ++ sg_out (ls_g s) root /\ tris_in (ls_g s') tris) /\
+  (exists tris, sg_out (ls_g s') root = tris ++ sg_out (ls_g s) root /\ tris_in (ls_g s') tris /\
+     Forall2 (fun f o => lookup_nat (ls_tri s') f = Some o) (rev (filter (fun i => negb (mem i occ)) fs)) tris) /\
   lprov s s' [] /\ tri_grow s s'.
 Proof.
   intros Hr0. induction fs as [|i r IH]; intros s root' s' Hok Hfs Hlr H; cbn [add_free] in H.
   - injection H as <- <-. split; [reflexivity|]. split; [exact Hok|]. split; [apply ext_refl|].
-    split; [exists []; split; [reflexivity|constructor]|split; [apply lprov_refl|apply tri_grow_refl]].
+    split; [exists []; split; [reflexivity|split; constructor]|split; [apply lprov_refl|apply tri_grow_refl]].
   - inversion Hfs as [|? ? [Hi Hpi] Hr]; subst.
-    destruct (mem i occ); [now apply IH|].
+    cbn [filter]. destruct (mem i occ); [now apply IH|]. cbn [negb].
     apply Nat.eqb_neq in Hr0 as E0. rewrite E0 in H.
     destruct (add_literal_node rc i root s) as [s2|] eqn:E2; [|discriminate].
-    destruct (add_literal_node_spec rc i root s s2 Hok Hi Hpi Hlr E2) as [Hok2 [He2 [_ [o [Ho [Hto _]]]]]].
-    destruct (IH s2 root' s' Hok2 Hr (ext_label_some _ _ _ _ _ He2 Hlr) H) as [-> [Hok' [He' [[tris [Ht1 Ht2]] [Pr Gr]]]]].
+    destruct (add_literal_node_spec rc i root s s2 Hok Hi Hpi Hlr E2) as [Hok2 [He2 [_ [o [Ho [Hto [_ Hlk]]]]]]].
+    destruct (IH s2 root' s' Hok2 Hr (ext_label_some _ _ _ _ _ He2 Hlr) H) as [-> [Hok' [He' [[tris [Ht1 [Ht2 Ht3]]] [Pr Gr]]]]].
     destruct (add_literal_node_S rc _ _ _ _ E2) as [P2 G2].
     split; [reflexivity|]. split; [exact Hok'|]. split; [exact (ext_trans _ _ _ _ He2 He')|].
     split; [|split; [exact (lprov_trans _ _ _ [] [] P2 Pr Gr)|exact (tri_grow_trans _ _ _ G2 Gr)]].
     exists (tris ++ [o]). split; [rewrite Ht1, Ho, <- app_assoc; reflexivity|].
+    split; [|cbn [rev]; apply Forall2_app; [exact Ht3|repeat constructor; now apply Gr]].
     apply Forall_app. split; [exact Ht2|]. constructor; [|constructor]. exists i.
     apply (tri_node_ext _ _ [root] i o He'); [|exact Hto].
     intros [<-|[]]. destruct Hto as [_ [Hl _]]. rewrite (ext_label_some _ _ _ _ _ He2 Hlr) in Hl. discriminate.
@@ -53,16 +55,22 @@ Definition free_result (s : lstate) (root' : nat) (s' : lstate) : Prop :=
    ext (ls_g s) (ls_g s') [] /\
    exists tris, sg_out (ls_g s') root' = tris ++ [0] /\ tris_in (ls_g s') tris).
 
+(* the features of the triangles below the new root: those of fs that are not in occ *)
+Definition free_feats (occ fs : list nat) (root' : nat) (s' : lstate) : Prop :=
+  root' = 0 \/
+  exists tris, sg_out (ls_g s') root' = tris ++ [0] /\
+    Forall2 (fun f o => lookup_nat (ls_tri s') f = Some o) (rev (filter (fun i => negb (mem i occ)) fs)) tris.
+
 Lemma add_free_spec occ : forall fs s root' s',
   tables_ok P st s -> sg_alive (ls_g s) 0 = true -> Forall (fun f => 1 <= f /\ @PF P f) fs ->
   add_free rc occ fs 0 s = Some (root', s') ->
-  tables_ok P st s' /\ free_result s root' s' /\ lprov s s' [root'] /\ tri_grow s s'.
+  tables_ok P st s' /\ free_result s root' s' /\ lprov s s' [root'] /\ tri_grow s s' /\ free_feats occ fs root' s'.
 Proof.
   induction fs as [|i r IH]; intros s root' s' Hok H0 Hfs H; cbn [add_free] in H.
   - injection H as <- <-. split; [exact Hok|]. split; [now left|].
-    split; [apply (lprov_weaken _ _ []); [intros ? []|apply lprov_refl]|apply tri_grow_refl].
+    split; [apply (lprov_weaken _ _ []); [intros ? []|apply lprov_refl]|split; [apply tri_grow_refl|now left]].
   - inversion Hfs as [|? ? [Hi Hpi] Hr]; subst.
-    destruct (mem i occ); [now apply IH|]. cbn [Nat.eqb] in H.
+    unfold free_feats. cbn [filter]. destruct (mem i occ); [now apply IH|]. cbn [Nat.eqb negb] in *.
     destruct (add_node rc GAnd (ls_g s)) as [x g1] eqn:Ha.
     destruct (ls_add_edge x 0 (with_g s g1)) as [s1|] eqn:E1; [|discriminate]. cbn [option_map] in H.
     destruct (add_literal_node rc i x s1) as [s2|] eqn:E2; [|discriminate].
@@ -89,16 +97,18 @@ Proof.
     { intros f o Hfo. rewrite Htri1 in Hfo. apply (tri_node_ext _ _ [x] f o He01'); [|now apply Ht].
       intros [<-|[]]. destruct (Ht f x Hfo) as [_ [Hlo _]]. congruence. }
     assert (Hlx : sg_label (ls_g s1) x = Some GAnd) by exact (ext_label_some _ _ _ _ _ He1 Hlx1).
-    destruct (add_literal_node_spec rc i x s1 s2 (conj Hc1 Ht1) Hi Hpi Hlx E2) as [Hok2 [He2 [_ [o [Ho [Hto _]]]]]].
+    destruct (add_literal_node_spec rc i x s1 s2 (conj Hc1 Ht1) Hi Hpi Hlx E2) as [Hok2 [He2 [_ [o [Ho [Hto [_ Hlk]]]]]]].
     destruct (add_free_tail occ x Hx0 r s2 root' s' Hok2 Hr (ext_label_some _ _ _ _ _ He2 Hlx) H)
-      as [-> [Hok' [He' [[tris [Hr1 Hr2]] [Pr Gr]]]]].
+      as [-> [Hok' [He' [[tris [Hr1 [Hr2 Hr3]]] [Pr Gr]]]]].
     destruct (ls_add_edge_S _ _ _ _ E1) as [L1 T1]. destruct (add_literal_node_S rc _ _ _ _ E2) as [P2 G2].
     assert (P01 : lprov s s1 [x]).
     { intros y t Hy. rewrite L1 in Hy. cbn [with_g ls_g] in Hy.
       destruct (add_node_label_cases rc _ _ _ _ _ _ Ha Hy) as [[-> ->]|[_ Hy0]]; [|now left].
       right. right. right. split; [reflexivity|now left]. }
     assert (G01 : tri_grow s s1) by (apply tri_grow_eq; exact T1).
-    split; [exact Hok'|]. split; [|split; [|exact (tri_grow_trans _ _ _ (tri_grow_trans _ _ _ G01 G2) Gr)]].
+    split; [exact Hok'|]. split; [|split; [|split; [exact (tri_grow_trans _ _ _ (tri_grow_trans _ _ _ G01 G2) Gr)|]]].
+    3:{ right. exists (tris ++ [o]). split; [rewrite Hr1, Ho, Ho1, Hox1, <- app_assoc; reflexivity|].
+        cbn [rev]. apply Forall2_app; [exact Hr3|repeat constructor; now apply Gr]. }
     2:{ apply (lprov_weaken _ _ (([x] ++ []) ++ [])); [intros y Hy; rewrite !app_nil_r in Hy; exact Hy|].
         exact (lprov_trans _ _ _ _ _ (lprov_trans _ _ _ _ _ P01 P2 G2) Pr Gr). }
     right.
